@@ -5,6 +5,7 @@ class shipped by the library has.  Module level, so that instances can be pickle
 
 from __future__ import annotations
 
+import dataclasses as _dataclasses
 from typing import Any
 
 import sympy as sp
@@ -55,7 +56,19 @@ def square(x):
     return x**2
 
 
-FUNCTORS = {"half": half, "square": square, "sin": sp.sin}
+@_dataclasses.dataclass
+class Scale:
+    """A parametrised callable the way a user writes one: a plain dataclass, hence comparable by value
+    but *unhashable* (``eq=True`` without ``frozen``) -- the case ``_get_hashable_object`` falls back to
+    ``str()`` for."""
+
+    factor: int
+
+    def __call__(self, x):
+        return self.factor * x
+
+
+FUNCTORS = {"half": half, "square": square, "sin": sp.sin, "scale3": Scale(3), "scale5": Scale(5)}
 
 
 import warnings as _warnings  # noqa: E402
